@@ -211,7 +211,7 @@ PROPS['C16'] = {
 }
 
 PROPS['C02'] = {
-    'modules': FS_MODULES + ['contracts.mvcc', 'contracts.mappingstorage'],
+    'modules': FS_MODULES + ['contracts.mvcc', 'contracts.mappingstorage', 'contracts.connection'],
     'lemmas': ['contracts.mvcc:lemma_frames', 'contracts.mvcc:lemma_snapshot'],
     'level': 'proof',
     'bounded': [
@@ -234,7 +234,8 @@ PROPS['C02'] = {
             'and the least one at or above it as end; Connection.open proved to take the caller\'s transaction manager, to '
             'reset the cache first if resetCaches() was called, to cross a boundary (newTransaction) unless the manager is '
             'explicit, and to REGISTER the connection for the manager\'s later boundaries; afterCompletion proved to be a '
-            'boundary in implicit mode.',
+            'boundary in implicit mode; Connection.setstate proved to take state AND serial of an object from ONE load '
+            'through the connection\'s storage (and a Blob\'s committed file under the same oid and serial).',
     'note': 'NOT covered: the schedule quantifier. Lock-protected regions are treated as atomic (T3); a breakage '
             'visible only as a race that keeps every sequential contract and lock-ownership obligation true is not '
             'detected by this family. The instance registry is unrolled with three members. FilePool is an assumed '
@@ -443,7 +444,9 @@ PROPS['C14'] = {
             'names (own connection only if it names none; NO data manager when that database is not configured); '
             'Connection._resetCache gives the connection one new empty cache of the same size AND switches its '
             'ObjectReader to it (CACHE-SHARED: one object per id whether reached by get() or by reference), which '
-            'Connection.__init__ establishes. BOUNDED only - the first '
+            'Connection.__init__ establishes; Connection.get gives the cached / added object for a known oid and otherwise '
+            'loads, makes a ghost and FILES it in the cache under the oid before returning it (one object per id). '
+            'BOUNDED only - the first '
             'sentence of the property (graph round trip through zodbpickle, ObjectWriter.persistent_id, ObjectReader '
             'loaders, broken classes): random graphs through the real code.',
     'note': 'Everything inside zodbpickle and persistent (C code) is outside; A-NOLOAD assumed. persistent_id and the '
@@ -598,7 +601,8 @@ PROPS['C11'] = {
             'effect while joined; commit checks every remaining readCurrent oid inside the storage transaction with and '
             'without savepoints; tpc_vote ghostifies resolved / conflicting objects; _commit hands to _store_objects (an '
             'ObjectWriter of its own each) EXACTLY the registered objects that were added or are changed and not being '
-            'created, with the transaction given; __init__ starts with empty bookkeeping, still to join. BOUNDED only: '
+            'created, with the transaction given; __init__ starts with empty bookkeeping, still to join; get / setstate '
+            'touch no object but the one asked for. BOUNDED only: '
             '_store_objects/ObjectWriter (the graph walk), savepoints (C12), cacheGC/pool reuse - by the program harness.',
     'note': 'Assumes A-PERSISTENT, A-PICKLECACHE (C code) and CONNINV (representation invariant of the connection, not '
             'proved to be preserved by _store_objects). F20 (add with refused join) and F21 (new object that never '
